@@ -90,6 +90,8 @@ def run(chk):
                        "ascending atan2 ordering and fan triangulation.")
     chk.rule("R19.1", "homogeneity: scaling all energies by s scales every vertex by s (degree 1)", 5)
     chk.rule("R19.2", "dual point n e/|n e|^2; vertex = N e_i/(N.n_i) with i a vertex of the same simplex; every simplex is listed under each of its three dual points", 6)
+    chk.rule("R19.4", "facet bookkeeping and scale: one ordered vertex list per facet (position i <-> facet i) on every path; the pruning "
+                      "comparison has the same length dimension on both sides; energies are stored with a dtype of their own", 3)
     chk.rule("R19.3", "orientation: in-plane basis (a, n x a), ascending atan2(v, u), fan triangulation (f0, f_i, f_i+1)", 6)
     pv = w.ev("WulffConstruction._populate_duals")
     xv = w.ev("WulffConstruction._extract_wulff_from_dual_mesh", opaque={"simplices", "normals", "facet_indices", "corresponding_facet_normals",
@@ -210,5 +212,55 @@ def run(chk):
         call = [e for e in fx.events if e.kind == "call" and call_name(e.value.as_atom() or ()) == "order_and_triangulate_polygons"]
         okf = bool(call) and [x.key() for x in call[0].extra["args"]] == ["self.wulff_vertices", "self.wulff_facets", "self.facet_normals"]
         chk.ob("R19.3", W, "WulffConstruction._fix_wulff_mesh", "ordering uses the construction's vertices, facet lists and facet normals", okf)
+    if chk.want("R19.4"):
+        r19_4(chk, w)
     chk.assume("that the hull's simplices are the right ones, degeneracies and volume are geometry and are not decided")
     chk.assume("ConvexHull combinatorics are invariant under uniform scaling (library contract); the absolute pruning threshold 1e-5 is the recorded exception to homogeneity")
+
+
+def r19_4(chk, w):
+    import ast
+    from .generic import append_counts, dtype_inheritance_sites
+    # (a) ordered_facets: result[i] belongs to facets[i]
+    fn = w.func("ordered_facets")
+    chk.saw(W, "ordered_facets")
+    loops = [n for n in fn.body if isinstance(n, ast.For)]
+    chk.need(len(loops) == 1, "ordered_facets: expected one loop over the facets")
+    ret = [n for n in ast.walk(fn) if isinstance(n, ast.Return) and isinstance(n.value, ast.Name)]
+    chk.need(ret, "ordered_facets: returned list not found")
+    name = ret[0].value.id
+    counts = append_counts(loops[0].body, name)
+    chk.need(counts is not None, f"ordered_facets: the loop over facets changes '{name}' in a way the path count does not model")
+    chk.ob("R19.4", W, "ordered_facets", "every pass of the loop over facets appends exactly one entry (position i of the result is facet i)",
+           counts == {1}, node=loops[0], fingerprint="one-per-facet", expected="{1}", found=f"appends per pass over the paths: {sorted(counts)}")
+    it = loops[0].iter
+    chk.ob("R19.4", W, "ordered_facets", "the loop enumerates the facet lists in order", isinstance(it, ast.Call) and getattr(it.func, "id", None) == "enumerate"
+           and isinstance(it.args[0], ast.Name) and it.args[0].id == fn.args.args[1].arg, node=loops[0], fingerprint="enumerate", found=ast.unparse(it))
+    # (b) prune_degenerate_points: squared distances are compared with a squared length
+    pv = w.ev("prune_degenerate_points")
+    chk.saw(W, "prune_degenerate_points")
+    pts, thr = pv.param_names[0], pv.param_names[1]
+    deg = Deg({pts: 1, thr: 1})
+    km = [e for e in pv.events if e.kind == "assign" and e.value is not None and find_atoms(e.value, lambda a: a[0] in ("lt", "le"))]
+    chk.need(km, "prune_degenerate_points: comparison with the threshold not found")
+    n = 0
+    for a in find_atoms(km[0].value, lambda a: a[0] in ("lt", "le")):
+        dl, dr = deg.of(a[1]), deg.of(a[2])
+        if thr not in a[1].key() + a[2].key():
+            continue
+        n += 1
+        chk.ob("R19.4", W, "prune_degenerate_points", "the distance test compares quantities of the same length dimension (squared distance with squared threshold)",
+               dl is not None and dl == dr, node=km[0].node, fingerprint="dimension", expected="degree 2 on both sides", found=f"{a[1]}: degree {dl}  vs  {str(a[2])[:80]}: degree {dr}")
+    chk.need(n >= 1, "prune_degenerate_points: no comparison involving the threshold")
+    # (c) constructor: energies keep a dtype of their own
+    q = "WulffConstruction.__init__"
+    iv = w.ev(q)
+    chk.saw(W, q)
+    roots = {"self.facet_normals", "self.facet_energies"} | set(iv.param_names[1:])
+    sites = dtype_inheritance_sites(iv, roots)
+    st = {e.target.key(): e.value for e in iv.events if e.kind == "store"}
+    fe = st.get("self.facet_energies")
+    chk.need(fe is not None, f"{q}: facet_energies store not found")
+    chk.ob("R19.4", W, q, "the energies are stored as given, in an array whose dtype comes from the energies (not from the normals)",
+           not sites and iv.param_names[2] in fe.key() and "facet_normals" not in fe.key(), node=sites[0][0].node if sites else None,
+           fingerprint="energies-dtype", expected=f"numpy.array({iv.param_names[2]})", found=sites[0][1] if sites else str(fe))
